@@ -25,7 +25,7 @@ Definition vtypes : list vtype :=
     mkVT "DNS" DNS_IsValid DNS_getters DNS_specs [] [];
     mkVT "Ether" Ether_IsValid Ether_getters Ether_specs Ether_findings Ether_findings;
     mkVT "EthernetPause" Pause_IsValid Pause_getters Pause_specs [] [];
-    mkVT "HopByHopExtensionHeader" HBH_IsValid HBH_getters HBH_specs [] HBH_findings_C02;
+    mkVT "HopByHopExtensionHeader" HBH_IsValid HBH_getters HBH_specs [] [];
     mkVT "ICMP" ICMP_IsValid ICMP_getters ICMP_specs [] [];
     mkVT "ICMP4Redirect" R4_IsValid R4_getters R4_specs [] [];
     mkVT "ICMP6NeighborAdvertisement" NA_IsValid NA_getters NA_specs [] [];
